@@ -822,7 +822,7 @@ fn grid_ops(mil: u8, mops: u8, ladv: i64, oadv: u64) -> Vec<Op> {
 
 pub fn run(t: &[&str]) -> String {
     match t[0] {
-        "c13.grid" | "c13.gridx" => {
+        "c13.grid" => {
             let lb = i(t[1]) as i8;
             let lr = u(t[2]) as u8;
             let mil = u(t[3]) as u8;
@@ -830,7 +830,7 @@ pub fn run(t: &[&str]) -> String {
             let ver = u(t[5]) as u16;
             let h = grid_hdr(lb, lr, mil, mops, ver);
             let ops = grid_ops(mil, mops, i(t[6]), u(t[7]));
-            eval(&h, &ops, if t[0] == "c13.grid" { 1 } else { 2 })
+            eval(&h, &ops, 1)
         }
         "c13.newpre" | "c13.new" => {
             let h = grid_hdr(i(t[1]) as i8, u(t[2]) as u8, 1, 1, 4);
